@@ -50,90 +50,726 @@ theorem foldl_pick_spec (l : List (Cand α)) (b : Cand α) :
       · exact le_trans h2 (pick_le_right b d hf)
       · exact h3 d hd hf
 
-/-- `std::min_element` -/
-theorem minReduce_spec (c : Cand α) (ds : List (Cand α)) :
-    minReduce c ds ∈ c :: ds ∧ ∀ d ∈ c :: ds, (minReduce c ds).score ≤ d.score := by
-  induction ds generalizing c with
-  | nil => simp [minReduce]
-  | cons d ds ih =>
-    simp only [minReduce]
-    obtain ⟨h1, h2⟩ := ih (if d.score < c.score then d else c)
+/-! ### per-thread caches + `min_reduce_feature`: independent of the assignment of features to workers -/
+
+/-- a candidate a cache can store: `std::isfinite(score)` and below `no_fit_score()` -/
+def Usable (big : α) (c : Cand α) : Prop := FinTest.isFin c.score = true ∧ c.score < big
+
+instance (big : α) (c : Cand α) : Decidable (Usable big c) := by unfold Usable; exact inferInstance
+
+theorem noFit_score (big : α) : (noFit big : Cand α).score = big := rfl
+
+theorem noFit_not_usable (big : α) : ¬ Usable big (noFit big : Cand α) := fun h => lt_irrefl _ h.2
+
+theorem pick_of (b c : Cand α) (h : FinTest.isFin c.score = true ∧ c.score < b.score) : pick b c = c := if_pos h
+
+theorem pick_of_not (b c : Cand α) (h : ¬ (FinTest.isFin c.score = true ∧ c.score < b.score)) : pick b c = b := if_neg h
+
+theorem pick_noFit_right (big : α) (c : Cand α) (h : c.score ≤ big) : pick c (noFit big) = c :=
+  pick_of_not _ _ (fun hh => absurd hh.2 (not_lt.mpr h))
+
+theorem pick_noFit_left (big : α) (x : Cand α) : (Usable big x → pick (noFit big) x = x) ∧
+    (¬ Usable big x → pick (noFit big) x = noFit big) :=
+  ⟨fun h => pick_of _ _ h, fun h => pick_of_not _ _ h⟩
+
+/-- what `fitSeq` returns: the empty cache, or a usable candidate of the list -/
+theorem fitSeq_cache (big : α) (l : List (Cand α)) :
+    (fitSeq big l = noFit big ∧ ∀ c ∈ l, ¬ Usable big c) ∨
+    (fitSeq big l ∈ l ∧ Usable big (fitSeq big l) ∧ ∀ c ∈ l, Usable big c → (fitSeq big l).score ≤ c.score) := by
+  unfold fitSeq
+  obtain ⟨h1, h2, h3⟩ := foldl_pick_spec l (noFit big)
+  rcases h1 with h1 | ⟨hm, hf, hlt⟩
+  · left
+    refine ⟨h1, fun c hc hu => ?_⟩
+    have := h3 c hc hu.1
+    rw [h1, noFit_score] at this
+    exact absurd hu.2 (not_lt.mpr this)
+  · right
+    exact ⟨hm, ⟨hf, hlt⟩, fun c hc hu => h3 c hc hu.1⟩
+
+theorem fitSeq_score_le (big : α) (l : List (Cand α)) : (fitSeq big l).score ≤ big :=
+  (foldl_pick_spec l (noFit big)).2.1
+
+/-- left-biased minimum: associativity on (start with score ≤ big, usable, usable) -/
+theorem pick_assoc_usable (big : α) (c x r : Cand α) (hx : Usable big x) (hr : Usable big r) :
+    pick (pick c x) r = pick c (pick x r) := by
+  by_cases h1 : x.score < c.score
+  · rw [pick_of c x ⟨hx.1, h1⟩]
+    by_cases h2 : r.score < x.score
+    · rw [pick_of x r ⟨hr.1, h2⟩, pick_of c r ⟨hr.1, lt_trans h2 h1⟩]
+    · rw [pick_of_not x r (fun h => h2 h.2), pick_of c x ⟨hx.1, h1⟩]
+  · rw [pick_of_not c x (fun h => h1 h.2)]
+    by_cases h2 : r.score < x.score
+    · rw [pick_of x r ⟨hr.1, h2⟩]
+    · rw [pick_of_not x r (fun h => h2 h.2), pick_of_not c x (fun h => h1 h.2)]
+      exact pick_of_not c r (fun h => h2 (lt_of_lt_of_le h.2 (not_lt.mp h1)))
+
+/-- a cache that starts from `c` and sees `l` holds what `c` becomes after seeing the one candidate `fitSeq big l` -/
+theorem foldl_pick_eq (big : α) (l : List (Cand α)) (c : Cand α) (hc : c.score ≤ big) :
+    l.foldl pick c = pick c (fitSeq big l) := by
+  induction l generalizing c with
+  | nil => exact (pick_noFit_right big c hc).symm
+  | cons x l ih =>
+    have hL : (x :: l).foldl pick c = pick (pick c x) (fitSeq big l) := by
+      rw [List.foldl_cons]
+      exact ih _ (le_trans (pick_le_left c x) hc)
+    have hR : fitSeq big (x :: l) = pick (pick (noFit big) x) (fitSeq big l) := by
+      show (x :: l).foldl pick (noFit big) = _
+      rw [List.foldl_cons]
+      exact ih _ (le_trans (pick_le_left _ x) (le_refl _))
+    rw [hL, hR]
+    by_cases hx : Usable big x
+    · rw [(pick_noFit_left big x).1 hx]
+      rcases fitSeq_cache big l with ⟨hN, _⟩ | ⟨_, hu, _⟩
+      · rw [hN, pick_noFit_right big _ (le_trans (pick_le_left c x) hc), pick_noFit_right big x (le_of_lt hx.2)]
+      · exact pick_assoc_usable big c x _ hx hu
+    · rw [(pick_noFit_left big x).2 hx]
+      have hcx : pick c x = c := pick_of_not c x (fun h => hx ⟨h.1, lt_of_lt_of_le h.2 hc⟩)
+      rw [hcx]
+      rcases fitSeq_cache big l with ⟨hN, _⟩ | ⟨_, hu, _⟩
+      · rw [hN, (pick_noFit_left big (noFit big)).2 (noFit_not_usable big)]
+      · rw [(pick_noFit_left big _).1 hu]
+
+theorem fitSeq_append (big : α) (a b : List (Cand α)) :
+    fitSeq big (a ++ b) = pick (fitSeq big a) (fitSeq big b) := by
+  show (a ++ b).foldl pick (noFit big) = _
+  rw [List.foldl_append]
+  exact foldl_pick_eq big b _ (fitSeq_score_le big a)
+
+theorem fitSeq_cons (big : α) (x : Cand α) (l : List (Cand α)) :
+    fitSeq big (x :: l) = pick (pick (noFit big) x) (fitSeq big l) := by
+  show (x :: l).foldl pick (noFit big) = _
+  rw [List.foldl_cons]
+  exact foldl_pick_eq big l _ (le_trans (pick_le_left _ x) (le_refl _))
+
+/-- the per-feature bests of a worker's features (the empty cache for a feature without usable candidate) -/
+def repsC (big : α) (w : List (FeatC α)) : List (Cand α) := w.map fun p => fitSeq big p.2
+
+theorem fitSeq_single_cache (big : α) (l : List (Cand α)) : fitSeq big [fitSeq big l] = fitSeq big l := by
+  show pick (noFit big) (fitSeq big l) = _
+  rcases fitSeq_cache big l with ⟨hN, _⟩ | ⟨_, hu, _⟩
+  · rw [hN]; exact (pick_noFit_left big _).2 (noFit_not_usable big)
+  · exact (pick_noFit_left big _).1 hu
+
+/-- a worker's cache depends on the per-feature bests only -/
+theorem fitSeq_streamC (big : α) (w : List (FeatC α)) : fitSeq big (streamC w) = fitSeq big (repsC big w) := by
+  induction w with
+  | nil => rfl
+  | cons p w ih =>
+    have h1 : streamC (p :: w) = p.2 ++ streamC w := by simp [streamC]
+    have h2 : repsC big (p :: w) = [fitSeq big p.2] ++ repsC big w := by simp [repsC]
+    rw [h1, h2, fitSeq_append, fitSeq_append, ih, fitSeq_single_cache]
+
+/-- `(score, feature)` compared lexicographically, strictly -/
+def lexLtC (a b : Cand α) : Prop := a.score < b.score ∨ (a.score = b.score ∧ a.feature < b.feature)
+
+theorem lexLtC_trans {a b c : Cand α} (h1 : lexLtC a b) (h2 : lexLtC b c) : lexLtC a c := by
+  rcases h1 with h1 | ⟨e1, f1⟩ <;> rcases h2 with h2 | ⟨e2, f2⟩
+  · exact Or.inl (lt_trans h1 h2)
+  · exact Or.inl (e2 ▸ h1)
+  · exact Or.inl (e1 ▸ h2)
+  · exact Or.inr ⟨e1.trans e2, by omega⟩
+
+theorem lexLtC_asymm {a b : Cand α} (h1 : lexLtC a b) (h2 : lexLtC b a) : False := by
+  rcases h1 with h1 | ⟨e1, f1⟩ <;> rcases h2 with h2 | ⟨e2, f2⟩
+  · exact lt_asymm h1 h2
+  · exact absurd h1 (by rw [e2]; exact lt_irrefl _)
+  · exact absurd h2 (by rw [e1]; exact lt_irrefl _)
+  · omega
+
+theorem lessSF_iff (a b : Cand α) : lessSF a b ↔ lexLtC a b := by
+  unfold lessSF lexLtC
+  constructor
+  · rintro (h | ⟨h1, h2⟩)
+    · exact Or.inl h
+    · rcases lt_or_eq_of_le (not_lt.mp h1) with h | h
+      · exact Or.inl h
+      · exact Or.inr ⟨h, h2⟩
+  · rintro (h | ⟨h1, h2⟩)
+    · exact Or.inl h
+    · exact Or.inr ⟨by rw [h1]; exact lt_irrefl _, h2⟩
+
+/-- `r` is THE best of the caches `all`: the empty cache when none holds a candidate, otherwise the usable member that is
+    lexicographically below every other usable member -/
+def BestC (big : α) (all : List (Cand α)) (r : Cand α) : Prop :=
+  (r = noFit big ∧ ∀ c ∈ all, ¬ Usable big c) ∨
+  (r ∈ all ∧ Usable big r ∧ ∀ c ∈ all, Usable big c → c = r ∨ lexLtC r c)
+
+theorem bestC_unique (big : α) (all : List (Cand α)) (r r' : Cand α) (h : BestC big all r) (h' : BestC big all r') :
+    r = r' := by
+  rcases h with ⟨e, hn⟩ | ⟨hm, hu, hmin⟩ <;> rcases h' with ⟨e', hn'⟩ | ⟨hm', hu', hmin'⟩
+  · rw [e, e']
+  · exact absurd hu' (hn r' hm')
+  · exact absurd hu (hn' r hm)
+  · rcases hmin r' hm' hu' with e | l
+    · exact e.symm
+    · rcases hmin' r hm hu with e | l'
+      · exact e
+      · exact absurd l' (fun l' => lexLtC_asymm l l')
+
+theorem bestC_congr (big : α) (A B : List (Cand α)) (hAB : ∀ x, x ∈ A ↔ x ∈ B) (r : Cand α) (h : BestC big A r) :
+    BestC big B r := by
+  rcases h with ⟨e, hn⟩ | ⟨hm, hu, hmin⟩
+  · exact Or.inl ⟨e, fun c hc => hn c ((hAB c).mpr hc)⟩
+  · exact Or.inr ⟨(hAB r).mp hm, hu, fun c hc => hmin c ((hAB c).mpr hc)⟩
+
+/-- the usable members have increasing feature indices -/
+def SortedC (big : α) (R : List (Cand α)) : Prop :=
+  R.Pairwise (fun a b => Usable big a → Usable big b → a.feature < b.feature)
+
+/-- one cache over per-feature bests with increasing feature indices holds THE best of them -/
+theorem fitSeq_bestC (big : α) (R : List (Cand α)) (h : SortedC big R) : BestC big R (fitSeq big R) := by
+  induction R with
+  | nil => exact Or.inl ⟨rfl, fun c hc => by simp at hc⟩
+  | cons x R ih =>
+    obtain ⟨hx, hR⟩ := List.pairwise_cons.mp h
+    have ihR := ih hR
+    rw [fitSeq_cons]
+    by_cases hux : Usable big x
+    · rw [(pick_noFit_left big x).1 hux]
+      rcases ihR with ⟨e, hn⟩ | ⟨hm, hu, hmin⟩
+      · rw [e, pick_noFit_right big x (le_of_lt hux.2)]
+        refine Or.inr ⟨by simp, hux, fun c hc huc => ?_⟩
+        rcases List.mem_cons.mp hc with rfl | hc
+        · exact Or.inl rfl
+        · exact absurd huc (hn c hc)
+      · by_cases hlt : (fitSeq big R).score < x.score
+        · rw [pick_of x _ ⟨hu.1, hlt⟩]
+          refine Or.inr ⟨List.mem_cons_of_mem _ hm, hu, fun c hc huc => ?_⟩
+          rcases List.mem_cons.mp hc with rfl | hc
+          · exact Or.inr (Or.inl hlt)
+          · exact hmin c hc huc
+        · rw [pick_of_not x _ (fun hh => hlt hh.2)]
+          refine Or.inr ⟨by simp, hux, fun c hc huc => ?_⟩
+          rcases List.mem_cons.mp hc with rfl | hc
+          · exact Or.inl rfl
+          · right
+            have hle : x.score ≤ c.score := by
+              rcases hmin c hc huc with e | l
+              · rw [e]; exact not_lt.mp hlt
+              · rcases l with l | ⟨e, _⟩
+                · exact le_trans (not_lt.mp hlt) (le_of_lt l)
+                · rw [← e]; exact not_lt.mp hlt
+            rcases lt_or_eq_of_le hle with l | e
+            · exact Or.inl l
+            · exact Or.inr ⟨e, hx c hc hux huc⟩
+    · rw [(pick_noFit_left big x).2 hux]
+      have hp : pick (noFit big) (fitSeq big R) = fitSeq big R := by
+        rcases fitSeq_cache big R with ⟨hN, _⟩ | ⟨_, hu, _⟩
+        · rw [hN]; exact (pick_noFit_left big _).2 (noFit_not_usable big)
+        · exact (pick_noFit_left big _).1 hu
+      rw [hp]
+      rcases ihR with ⟨e, hn⟩ | ⟨hm, hu, hmin⟩
+      · refine Or.inl ⟨e, fun c hc => ?_⟩
+        rcases List.mem_cons.mp hc with rfl | hc
+        · exact hux
+        · exact hn c hc
+      · refine Or.inr ⟨List.mem_cons_of_mem _ hm, hu, fun c hc huc => ?_⟩
+        rcases List.mem_cons.mp hc with rfl | hc
+        · exact absurd huc hux
+        · exact hmin c hc huc
+
+/-- two usable caches with the same feature index are the same cache (different workers hold different features) -/
+def DistinctC (big : α) (all : List (Cand α)) : Prop :=
+  ∀ a ∈ all, ∀ b ∈ all, Usable big a → Usable big b → a.feature = b.feature → a = b
+
+/-- the selection step of `std::min_element` with the comparison of `min_reduce_feature` -/
+theorem sel_bestC (big : α) (P R : List (Cand α)) (best y : Cand α) (hP : BestC big P best) (hR : BestC big R y)
+    (hd : DistinctC big (P ++ R)) : BestC big (P ++ R) (if lessSF y best then y else best) := by
+  rcases hP with ⟨eP, hnP⟩ | ⟨hmP, huP, hminP⟩
+  · rcases hR with ⟨eR, hnR⟩ | ⟨hmR, huR, hminR⟩
+    · have : ¬ lessSF y best := by
+        rw [eP, eR, lessSF_iff]
+        exact fun h => lexLtC_asymm h h
+      rw [if_neg this]
+      refine Or.inl ⟨eP, fun c hc => ?_⟩
+      rcases List.mem_append.mp hc with hc | hc
+      · exact hnP c hc
+      · exact hnR c hc
+    · have : lessSF y best := by
+        rw [eP]
+        exact Or.inl huR.2
+      rw [if_pos this]
+      refine Or.inr ⟨List.mem_append_right _ hmR, huR, fun c hc huc => ?_⟩
+      rcases List.mem_append.mp hc with hc | hc
+      · exact absurd huc (hnP c hc)
+      · exact hminR c hc huc
+  · rcases hR with ⟨eR, hnR⟩ | ⟨hmR, huR, hminR⟩
+    · have : ¬ lessSF y best := by
+        rw [eR, lessSF_iff]
+        rintro (h | ⟨h, _⟩)
+        · exact absurd huP.2 (not_lt.mpr (le_of_lt h))
+        · exact absurd huP.2 (by rw [← h]; exact lt_irrefl _)
+      rw [if_neg this]
+      refine Or.inr ⟨List.mem_append_left _ hmP, huP, fun c hc huc => ?_⟩
+      rcases List.mem_append.mp hc with hc | hc
+      · exact hminP c hc huc
+      · exact absurd huc (hnR c hc)
+    · by_cases hl : lessSF y best
+      · rw [if_pos hl]
+        have hba : lexLtC y best := (lessSF_iff y best).mp hl
+        refine Or.inr ⟨List.mem_append_right _ hmR, huR, fun c hc huc => ?_⟩
+        rcases List.mem_append.mp hc with hc | hc
+        · rcases hminP c hc huc with e | l
+          · right; rw [e]; exact hba
+          · right; exact lexLtC_trans hba l
+        · exact hminR c hc huc
+      · rw [if_neg hl]
+        have hnba : ¬ lexLtC y best := fun h => hl ((lessSF_iff y best).mpr h)
+        have hab : y = best ∨ lexLtC best y := by
+          by_cases hf : best.feature = y.feature
+          · left
+            exact (hd best (List.mem_append_left _ hmP) y (List.mem_append_right _ hmR) huP huR hf).symm
+          · right
+            rcases lt_trichotomy best.score y.score with h | h | h
+            · exact Or.inl h
+            · rcases Nat.lt_or_gt_of_ne hf with h' | h'
+              · exact Or.inr ⟨h, h'⟩
+              · exact absurd (Or.inr ⟨h.symm, h'⟩) hnba
+            · exact absurd (Or.inl h) hnba
+        refine Or.inr ⟨List.mem_append_left _ hmP, huP, fun c hc huc => ?_⟩
+        rcases List.mem_append.mp hc with hc | hc
+        · exact hminP c hc huc
+        · rcases hminR c hc huc with e | l
+          · rw [e]; exact hab
+          · right
+            rcases hab with e | l'
+            · rw [← e]; exact l
+            · exact lexLtC_trans l' l
+
+theorem minReduce_bestC (big : α) (cache : List (Cand α) → Cand α) (ws : List (List (Cand α))) (P : List (Cand α))
+    (best : Cand α) (hP : BestC big P best) (hb : ∀ w ∈ ws, BestC big w (cache w))
+    (hd : DistinctC big (P ++ ws.flatten)) :
+    BestC big (P ++ ws.flatten) (minReduce best (ws.map cache)) := by
+  induction ws generalizing P best with
+  | nil => simpa [minReduce] using hP
+  | cons w ws ih =>
+    have hflat : P ++ (w :: ws).flatten = (P ++ w) ++ ws.flatten := by simp
+    rw [hflat] at hd ⊢
+    rw [List.map_cons, minReduce]
+    apply ih (P ++ w) _ _ (fun v hv => hb v (List.mem_cons_of_mem _ hv)) hd
+    apply sel_bestC big P w best (cache w) hP (hb w (by simp))
+    intro a ha b hb'
+    exact hd a (List.mem_append_left _ ha) b (List.mem_append_left _ hb')
+
+theorem featC_inj (feats : List (FeatC α)) (hf : (feats.map Prod.fst).Pairwise (· < ·)) (f g : FeatC α)
+    (hff : f ∈ feats) (hgf : g ∈ feats) (h : f.1 = g.1) : f = g := by
+  induction feats with
+  | nil => simp at hff
+  | cons x xs ih =>
+    rw [List.map_cons, List.pairwise_cons] at hf
+    obtain ⟨hx, hxs⟩ := hf
+    rcases List.mem_cons.mp hff with e1 | hff' <;> rcases List.mem_cons.mp hgf with e2 | hgf'
+    · rw [e1, e2]
+    · have := hx g.1 (List.mem_map.mpr ⟨g, hgf', rfl⟩)
+      rw [e1] at h
+      omega
+    · have := hx f.1 (List.mem_map.mpr ⟨f, hff', rfl⟩)
+      rw [e2] at h
+      omega
+    · exact ih hxs hff' hgf'
+
+/-- a usable per-feature best is a candidate of its feature -/
+theorem rep_usable_mem (big : α) (p : FeatC α) (hu : Usable big (fitSeq big p.2)) : fitSeq big p.2 ∈ p.2 := by
+  rcases fitSeq_cache big p.2 with ⟨hN, _⟩ | ⟨hm, _, _⟩
+  · rw [hN] at hu; exact absurd hu (noFit_not_usable big)
+  · exact hm
+
+theorem repsC_sorted (big : α) (w : List (FeatC α)) (hidx : ∀ p ∈ w, ∀ c ∈ p.2, c.feature = p.1)
+    (h : (w.map Prod.fst).Pairwise (· < ·)) : SortedC big (repsC big w) := by
+  unfold SortedC repsC
+  rw [List.pairwise_map] at h ⊢
+  refine List.Pairwise.imp_of_mem ?_ h
+  intro p q hp hq hpq hup huq
+  rw [hidx p hp _ (rep_usable_mem big p hup), hidx q hq _ (rep_usable_mem big q huq)]
+  exact hpq
+
+/-- **The selected candidate does not depend on the assignment of features to workers** (no hypothesis on the scores:
+    exact ties allowed) — see `fit_assignment_independent` in Props/C10.lean for the statement. -/
+theorem fitAssigned_sorted (big : α) (feats : List (FeatC α)) (workers : List (List (FeatC α)))
+    (hidx : ∀ p ∈ feats, ∀ c ∈ p.2, c.feature = p.1) (hinc : (feats.map Prod.fst).Pairwise (· < ·))
+    (hperm : workers.flatten.Perm feats) (hsorted : ∀ w ∈ workers, (w.map Prod.fst).Pairwise (· < ·)) :
+    BestC big (repsC big feats) (fitAssigned big (workers.map streamC)) := by
+  have hsub : ∀ w ∈ workers, ∀ p ∈ w, p ∈ feats := fun w hw p hp =>
+    hperm.subset (List.mem_flatten.mpr ⟨w, hw, hp⟩)
+  have hmem : ∀ a, a ∈ (workers.map (repsC big)).flatten ↔ a ∈ repsC big feats := by
+    intro a
     constructor
-    · rcases List.mem_cons.mp h1 with h | h
-      · rw [h]; split <;> simp
-      · exact List.mem_cons_of_mem _ (List.mem_cons_of_mem _ h)
-    · intro e he
-      have hm := h2 (if d.score < c.score then d else c) (by simp)
-      rcases List.mem_cons.mp he with rfl | he
-      · refine le_trans hm ?_
-        split
-        · rename_i h; exact le_of_lt h
-        · exact le_refl _
-      · rcases List.mem_cons.mp he with rfl | he
-        · refine le_trans hm ?_
-          split
-          · exact le_refl _
-          · rename_i h; exact not_lt.mp h
-        · exact h2 e (List.mem_cons_of_mem _ he)
-
-/-- one cache that sees a list containing the strict minimiser `c0` ends with `c0` -/
-theorem fitSeq_unique (big : α) (l : List (Cand α)) (c0 : Cand α) (h0 : c0 ∈ l)
-    (hf0 : FinTest.isFin c0.score = true) (hb : c0.score < big)
-    (huniq : ∀ c ∈ l, c ≠ c0 → FinTest.isFin c.score = true → c0.score < c.score) :
-    fitSeq big l = c0 := by
-  unfold fitSeq
-  obtain ⟨h1, _, h3⟩ := foldl_pick_spec l (noFit big)
-  have hle := h3 c0 h0 hf0
-  rcases h1 with h1 | ⟨hm, hf, _⟩
-  · rw [h1] at hle
-    have : (noFit big : Cand α).score = big := rfl
-    rw [this] at hle
-    exact absurd hb (not_lt.mpr hle)
-  · by_contra hne
-    exact absurd (huniq _ hm hne hf) (not_lt.mpr hle)
-
-/-- any cache ends with `c0` or with something strictly worse -/
-theorem fitSeq_other (big : α) (l : List (Cand α)) (c0 : Cand α) (hb : c0.score < big)
-    (huniq : ∀ c ∈ l, c ≠ c0 → FinTest.isFin c.score = true → c0.score < c.score) :
-    fitSeq big l = c0 ∨ c0.score < (fitSeq big l).score := by
-  unfold fitSeq
-  obtain ⟨h1, _, _⟩ := foldl_pick_spec l (noFit big)
-  rcases h1 with h1 | ⟨hm, hf, _⟩
-  · right; rw [h1]; exact hb
-  · by_cases hne : l.foldl pick (noFit big) = c0
-    · left; exact hne
-    · right; exact huniq _ hm hne hf
-
-/-- **The selected candidate does not depend on the chunk → worker assignment** when the minimal score is attained by
-    one candidate only: whatever lists of candidates the workers saw (every candidate seen by some worker, in any order),
-    `min_reduce` over their caches returns the candidate a single cache seeing everything returns. -/
-theorem fit_assignment_independent_cands (big : α) (cands : List (Cand α)) (workers : List (List (Cand α)))
-    (hperm : workers.flatten.Perm cands) (c0 : Cand α) (h0 : c0 ∈ cands)
-    (hf0 : FinTest.isFin c0.score = true) (hb : c0.score < big)
-    (huniq : ∀ c ∈ cands, c ≠ c0 → FinTest.isFin c.score = true → c0.score < c.score) :
-    fitAssigned big workers = c0 ∧ fitSeq big cands = c0 := by
-  refine ⟨?_, fitSeq_unique big cands c0 h0 hf0 hb huniq⟩
-  have hsub : ∀ w ∈ workers, ∀ c ∈ w, c ∈ cands := by
-    intro w hw c hc
-    exact hperm.subset (List.mem_flatten.mpr ⟨w, hw, hc⟩)
-  have h0' : c0 ∈ workers.flatten := hperm.symm.subset h0
-  obtain ⟨w0, hw0, hc0⟩ := List.mem_flatten.mp h0'
-  have hres0 : fitSeq big w0 = c0 :=
-    fitSeq_unique big w0 c0 hc0 hf0 hb (fun c hc => huniq c (hsub w0 hw0 c hc))
-  have hall : ∀ d ∈ workers.map (fitSeq big), d = c0 ∨ c0.score < d.score := by
-    intro d hd
-    obtain ⟨w, hw, rfl⟩ := List.mem_map.mp hd
-    exact fitSeq_other big w c0 hb (fun c hc => huniq c (hsub w hw c hc))
-  have hin : c0 ∈ workers.map (fitSeq big) := List.mem_map.mpr ⟨w0, hw0, hres0⟩
+    · intro h
+      obtain ⟨l, hl, ha⟩ := List.mem_flatten.mp h
+      obtain ⟨w, hw, rfl⟩ := List.mem_map.mp hl
+      obtain ⟨p, hp, rfl⟩ := List.mem_map.mp ha
+      exact List.mem_map.mpr ⟨p, hsub w hw p hp, rfl⟩
+    · intro h
+      obtain ⟨p, hp, rfl⟩ := List.mem_map.mp h
+      obtain ⟨w, hw, hpw⟩ := List.mem_flatten.mp (hperm.symm.subset hp)
+      exact List.mem_flatten.mpr ⟨repsC big w, List.mem_map.mpr ⟨w, hw, rfl⟩, List.mem_map.mpr ⟨p, hpw, rfl⟩⟩
+  have hd : DistinctC big (workers.map (repsC big)).flatten := by
+    intro a ha b hb hua hub hab
+    obtain ⟨p, hp, rfl⟩ := List.mem_map.mp ((hmem a).mp ha)
+    obtain ⟨q, hq, rfl⟩ := List.mem_map.mp ((hmem b).mp hb)
+    have hpq : p.1 = q.1 := by
+      rw [← hidx p hp _ (rep_usable_mem big p hua), ← hidx q hq _ (rep_usable_mem big q hub)]
+      exact hab
+    rw [featC_inj feats hinc p q hp hq hpq]
+  have hcaches : (workers.map streamC).map (fitSeq big) = (workers.map (repsC big)).map (fitSeq big) := by
+    simp only [List.map_map]
+    apply List.map_congr_left
+    intro w _
+    exact fitSeq_streamC big w
+  have hs : ∀ v ∈ workers.map (repsC big), SortedC big v := by
+    intro v hv
+    obtain ⟨w, hw, rfl⟩ := List.mem_map.mp hv
+    exact repsC_sorted big w (fun p hp => hidx p (hsub w hw p hp)) (hsorted w hw)
+  apply bestC_congr big _ _ hmem
   unfold fitAssigned
-  cases hres : workers.map (fitSeq big) with
-  | nil => rw [hres] at hin; simp at hin
-  | cons c cs =>
-    simp only
-    rw [hres] at hin hall
-    obtain ⟨hm, hmin⟩ := minReduce_spec c cs
-    rcases hall _ hm with h | h
+  rw [hcaches]
+  cases hws : workers.map (repsC big) with
+  | nil => exact Or.inl ⟨rfl, fun c hc => by simp at hc⟩
+  | cons v vs =>
+    rw [hws] at hd hs
+    simp only [List.map_cons, List.flatten_cons]
+    rw [List.flatten_cons] at hd
+    exact minReduce_bestC big (fitSeq big) vs v (fitSeq big v) (fitSeq_bestC big v (hs v (by simp)))
+      (fun u hu => fitSeq_bestC big u (hs u (List.mem_cons_of_mem _ hu))) hd
+
+/-- one thread that sees all features in index order -/
+theorem fitSeq_sorted (big : α) (feats : List (FeatC α)) (hidx : ∀ p ∈ feats, ∀ c ∈ p.2, c.feature = p.1)
+    (hinc : (feats.map Prod.fst).Pairwise (· < ·)) : BestC big (repsC big feats) (fitSeq big (streamC feats)) := by
+  rw [fitSeq_streamC]
+  exact fitSeq_bestC big _ (repsC_sorted big feats hidx hinc)
+
+/-- `BestC` over the per-feature bests, spelled out over ALL candidates -/
+theorem bestC_lexmin (big : α) (feats : List (FeatC α)) (hidx : ∀ p ∈ feats, ∀ c ∈ p.2, c.feature = p.1) (r : Cand α)
+    (h : BestC big (repsC big feats) r) :
+    (r = noFit big ∧ ∀ y ∈ streamC feats, ¬ Usable big y) ∨
+    (r ∈ streamC feats ∧ Usable big r ∧ ∀ y ∈ streamC feats, Usable big y →
+      r.score ≤ y.score ∧ (y.score = r.score → r.feature ≤ y.feature)) := by
+  have hrep : ∀ y ∈ streamC feats, Usable big y → ∃ p ∈ feats, y ∈ p.2 ∧ Usable big (fitSeq big p.2) ∧
+      (fitSeq big p.2).score ≤ y.score := by
+    intro y hy huy
+    unfold streamC at hy
+    obtain ⟨p, hp, hyp⟩ := List.mem_flatMap.mp hy
+    refine ⟨p, hp, hyp, ?_⟩
+    rcases fitSeq_cache big p.2 with ⟨_, hn⟩ | ⟨_, hu, hmin⟩
+    · exact absurd huy (hn y hyp)
+    · exact ⟨hu, hmin y hyp huy⟩
+  rcases h with ⟨e, hn⟩ | ⟨hm, hu, hmin⟩
+  · refine Or.inl ⟨e, fun y hy huy => ?_⟩
+    obtain ⟨p, hp, _, hup, _⟩ := hrep y hy huy
+    exact hn _ (List.mem_map.mpr ⟨p, hp, rfl⟩) hup
+  · right
+    obtain ⟨p0, hp0, hr0⟩ := List.mem_map.mp hm
+    have hr0' : fitSeq big p0.2 = r := hr0
+    have hrin : r ∈ streamC feats := by
+      unfold streamC
+      refine List.mem_flatMap.mpr ⟨p0, hp0, ?_⟩
+      rw [← hr0']
+      exact rep_usable_mem big p0 (by rw [hr0']; exact hu)
+    refine ⟨hrin, hu, fun y hy huy => ?_⟩
+    obtain ⟨p, hp, hyp, hup, hle⟩ := hrep y hy huy
+    have hbf : (fitSeq big p.2).feature = y.feature := by
+      rw [hidx p hp _ (rep_usable_mem big p hup), hidx p hp y hyp]
+    rcases hmin _ (List.mem_map.mpr ⟨p, hp, rfl⟩) hup with e | l
+    · rw [← e]
+      exact ⟨hle, fun _ => by omega⟩
+    · rcases l with l | ⟨e, l⟩
+      · exact ⟨le_trans (le_of_lt l) hle, fun hya => absurd (lt_of_lt_of_le l hle) (by rw [hya]; exact lt_irrefl _)⟩
+      · exact ⟨e ▸ hle, fun _ => by omega⟩
+
+/-! ### table learners: lexicographic caches (commit 5de0896) — no hypothesis on the order inside a worker -/
+
+/-- what a cache can hold: nothing, or a storable candidate -/
+def IsCache (big : α) (c : Cand α) : Prop := c = noFit big ∨ Usable big c
+
+theorem isCache_score_le (big : α) (c : Cand α) (h : IsCache big c) : c.score ≤ big := by
+  rcases h with rfl | h
+  · exact le_refl _
+  · exact le_of_lt h.2
+
+/-- the selection step of `std::min_element` with the comparison of `min_reduce_feature` -/
+def selC (a b : Cand α) : Cand α := if lessSF b a then b else a
+
+theorem not_lexLtC_trans {a b c : Cand α} (h1 : ¬ lexLtC b a) (h2 : ¬ lexLtC c b) : ¬ lexLtC c a := by
+  intro h
+  rcases lt_trichotomy a.score b.score with hab | hab | hab
+  · rcases lt_trichotomy b.score c.score with hbc | hbc | hbc
+    · rcases h with h | ⟨e, _⟩
+      · exact lt_asymm (lt_trans hab hbc) h
+      · rw [e] at hbc; exact lt_asymm hab hbc
+    · rcases h with h | ⟨e, _⟩
+      · rw [← hbc] at h; exact lt_asymm hab h
+      · rw [hbc, e] at hab; exact lt_irrefl _ hab
+    · exact h2 (Or.inl hbc)
+  · rcases lt_trichotomy b.score c.score with hbc | hbc | hbc
+    · rcases h with h | ⟨e, _⟩
+      · rw [hab] at h; exact lt_asymm hbc h
+      · rw [e, hab] at hbc; exact lt_irrefl _ hbc
+    · rcases h with h | ⟨_, hf⟩
+      · rw [hab, hbc] at h; exact lt_irrefl _ h
+      · have h1' : ¬ b.feature < a.feature := fun hf' => h1 (Or.inr ⟨hab.symm, hf'⟩)
+        have h2' : ¬ c.feature < b.feature := fun hf' => h2 (Or.inr ⟨hbc.symm, hf'⟩)
+        omega
+    · exact h2 (Or.inl hbc)
+  · exact h1 (Or.inl hab)
+
+/-- the left-biased lexicographic minimum is associative -/
+theorem selC_assoc (a b c : Cand α) : selC (selC a b) c = selC a (selC b c) := by
+  unfold selC
+  by_cases h1 : lessSF b a <;> by_cases h2 : lessSF c b
+  · have h3 : lessSF c a := (lessSF_iff c a).mpr (lexLtC_trans ((lessSF_iff c b).mp h2) ((lessSF_iff b a).mp h1))
+    simp [h1, h2, h3]
+  · simp [h1, h2]
+  · by_cases h3 : lessSF c a <;> simp [h1, h2, h3]
+  · have h3 : ¬ lessSF c a := fun h => not_lexLtC_trans (fun hh => h1 ((lessSF_iff b a).mpr hh))
+      (fun hh => h2 ((lessSF_iff c b).mpr hh)) ((lessSF_iff c a).mp h)
+    simp [h1, h2, h3]
+
+/-- a candidate as a cache sees it: itself when storable, nothing otherwise -/
+def normC (big : α) (c : Cand α) : Cand α := if Usable big c then c else noFit big
+
+theorem lessSF_noFit_iff (big : α) (c : Cand α) : lessSF c (noFit big) ↔ c.score < big := by
+  unfold lessSF
+  constructor
+  · rintro (h | ⟨_, h⟩)
     · exact h
-    · exact absurd h (not_lt.mpr (hmin c0 hin))
+    · exact absurd h (Nat.not_lt_zero _)
+  · exact fun h => Or.inl h
+
+theorem pickLex_noFit (big : α) (c : Cand α) : pickLex (noFit big) c = normC big c := by
+  unfold pickLex normC
+  by_cases hu : Usable big c
+  · rw [if_pos hu, if_pos ⟨hu.1, (lessSF_noFit_iff big c).mpr hu.2⟩]
+  · rw [if_neg hu, if_neg (fun h => hu ⟨h.1, (lessSF_noFit_iff big c).mp h.2⟩)]
+
+theorem normC_isCache (big : α) (c : Cand α) : IsCache big (normC big c) := by
+  unfold normC
+  split
+  · rename_i h; exact Or.inr h
+  · exact Or.inl rfl
+
+theorem not_lessSF_noFit_cache (big : α) (b : Cand α) (hb : IsCache big b) : ¬ lessSF (noFit big) b := by
+  rcases hb with rfl | hb
+  · rw [lessSF_iff]; exact fun h => lexLtC_asymm h h
+  · rintro (h | ⟨h, _⟩)
+    · exact absurd hb.2 (not_lt.mpr (le_of_lt h))
+    · exact h hb.2
+
+/-- the cache update = the selection step on the normalised candidate -/
+theorem pickLex_eq_selC (big : α) (b c : Cand α) (hb : IsCache big b) : pickLex b c = selC b (normC big c) := by
+  unfold normC selC
+  by_cases hu : Usable big c
+  · rw [if_pos hu]
+    unfold pickLex
+    by_cases hl : lessSF c b
+    · rw [if_pos ⟨hu.1, hl⟩, if_pos hl]
+    · rw [if_neg (fun h => hl h.2), if_neg hl]
+  · rw [if_neg hu, if_neg (not_lessSF_noFit_cache big b hb)]
+    unfold pickLex
+    rw [if_neg]
+    rintro ⟨hf, hl⟩
+    have hge : big ≤ c.score := not_lt.mp (fun h => hu ⟨hf, h⟩)
+    rcases hl with hl | ⟨hl1, hl2⟩
+    · exact absurd (lt_of_le_of_lt hge hl) (not_lt.mpr (isCache_score_le big b hb))
+    · rcases hb with rfl | hb
+      · exact absurd hl2 (Nat.not_lt_zero _)
+      · exact hl1 (lt_of_lt_of_le hb.2 hge)
+
+theorem selC_isCache (big : α) (a b : Cand α) (ha : IsCache big a) (hb : IsCache big b) : IsCache big (selC a b) := by
+  unfold selC; split
+  · exact hb
+  · exact ha
+
+theorem foldl_pickLex_isCache (big : α) (l : List (Cand α)) (b : Cand α) (hb : IsCache big b) :
+    IsCache big (l.foldl pickLex b) := by
+  induction l generalizing b with
+  | nil => exact hb
+  | cons c l ih =>
+    rw [List.foldl_cons]
+    apply ih
+    rw [pickLex_eq_selC big b c hb]
+    exact selC_isCache big _ _ hb (normC_isCache big c)
+
+theorem fitSeqLex_isCache (big : α) (l : List (Cand α)) : IsCache big (fitSeqLex big l) :=
+  foldl_pickLex_isCache big l _ (Or.inl rfl)
+
+theorem selC_noFit_right (big : α) (b : Cand α) (hb : IsCache big b) : selC b (noFit big) = b := by
+  unfold selC
+  rw [if_neg (not_lessSF_noFit_cache big b hb)]
+
+theorem selC_noFit_left (big : α) (b : Cand α) (hb : IsCache big b) : selC (noFit big) b = b := by
+  unfold selC
+  rcases hb with rfl | hb
+  · split <;> rfl
+  · rw [if_pos ((lessSF_noFit_iff big b).mpr hb.2)]
+
+theorem foldl_pickLex_eq_selC (big : α) (l : List (Cand α)) (b : Cand α) (hb : IsCache big b) :
+    l.foldl pickLex b = selC b (fitSeqLex big l) := by
+  induction l generalizing b with
+  | nil => exact (selC_noFit_right big b hb).symm
+  | cons c l ih =>
+    have hR : fitSeqLex big (c :: l) = selC (normC big c) (fitSeqLex big l) := by
+      show (c :: l).foldl pickLex (noFit big) = _
+      rw [List.foldl_cons, pickLex_noFit]
+      exact ih _ (normC_isCache big c)
+    rw [List.foldl_cons, hR, pickLex_eq_selC big b c hb, ← selC_assoc]
+    exact ih _ (selC_isCache big _ _ hb (normC_isCache big c))
+
+theorem fitSeqLex_append (big : α) (a b : List (Cand α)) :
+    fitSeqLex big (a ++ b) = selC (fitSeqLex big a) (fitSeqLex big b) := by
+  show (a ++ b).foldl pickLex (noFit big) = _
+  rw [List.foldl_append]
+  exact foldl_pickLex_eq_selC big b _ (fitSeqLex_isCache big a)
+
+theorem fitSeqLex_cons (big : α) (x : Cand α) (l : List (Cand α)) :
+    fitSeqLex big (x :: l) = selC (normC big x) (fitSeqLex big l) := by
+  have := fitSeqLex_append big [x] l
+  rw [List.singleton_append] at this
+  rw [this]
+  congr 1
+  show pickLex (noFit big) x = _
+  exact pickLex_noFit big x
+
+/-- on the candidates of ONE feature the two cache updates coincide -/
+theorem foldl_pickLex_same_feature (big : α) (i : Nat) (l : List (Cand α)) (hl : ∀ c ∈ l, c.feature = i) (b : Cand α)
+    (hb : b = noFit big ∨ (Usable big b ∧ b.feature = i)) : l.foldl pickLex b = l.foldl pick b := by
+  induction l generalizing b with
+  | nil => rfl
+  | cons c l ih =>
+    have hc : c.feature = i := hl c (by simp)
+    have hstep : pickLex b c = pick b c := by
+      have hiff : lessSF c b ↔ c.score < b.score := by
+        rcases hb with rfl | ⟨_, hbf⟩
+        · exact lessSF_noFit_iff big c
+        · unfold lessSF
+          constructor
+          · rintro (h | ⟨_, h⟩)
+            · exact h
+            · omega
+          · exact fun h => Or.inl h
+      unfold pickLex pick
+      by_cases hc' : FinTest.isFin c.score = true ∧ c.score < b.score
+      · rw [if_pos hc', if_pos ⟨hc'.1, hiff.mpr hc'.2⟩]
+      · rw [if_neg hc', if_neg (fun h => hc' ⟨h.1, hiff.mp h.2⟩)]
+    rw [List.foldl_cons, List.foldl_cons, hstep]
+    apply ih (fun d hd => hl d (by simp [hd]))
+    rcases pick_cases b c with ⟨h, hf, hlt⟩ | ⟨h, _⟩
+    · rw [h]
+      right
+      refine ⟨⟨hf, lt_of_lt_of_le hlt ?_⟩, hc⟩
+      rcases hb with rfl | ⟨hu, _⟩
+      · exact le_refl _
+      · exact le_of_lt hu.2
+    · rw [h]; exact hb
+
+theorem fitSeqLex_feature (big : α) (p : FeatC α) (hidx : ∀ c ∈ p.2, c.feature = p.1) :
+    fitSeqLex big p.2 = fitSeq big p.2 :=
+  foldl_pickLex_same_feature big p.1 p.2 hidx _ (Or.inl rfl)
+
+theorem normC_of_isCache (big : α) (r : Cand α) (h : IsCache big r) : normC big r = r := by
+  unfold normC
+  rcases h with rfl | h
+  · rw [if_neg (noFit_not_usable big)]
+  · rw [if_pos h]
+
+/-- a table worker's cache depends on the per-feature bests only -/
+theorem fitSeqLex_streamC (big : α) (w : List (FeatC α)) (hidx : ∀ p ∈ w, ∀ c ∈ p.2, c.feature = p.1) :
+    fitSeqLex big (streamC w) = fitSeqLex big (repsC big w) := by
+  induction w with
+  | nil => rfl
+  | cons p w ih =>
+    have h1 : streamC (p :: w) = p.2 ++ streamC w := by simp [streamC]
+    have h2 : repsC big (p :: w) = fitSeq big p.2 :: repsC big w := by simp [repsC]
+    rw [h1, h2, fitSeqLex_append, fitSeqLex_cons, ih (fun q hq => hidx q (List.mem_cons_of_mem _ hq)),
+      fitSeqLex_feature big p (hidx p (by simp))]
+    congr 1
+    refine (normC_of_isCache big _ ?_).symm
+    rcases fitSeq_cache big p.2 with ⟨hN, _⟩ | ⟨_, hu, _⟩
+    · exact Or.inl hN
+    · exact Or.inr hu
+
+/-- one lexicographic cache over caches with distinct feature indices, in ANY order, holds THE best of them -/
+theorem fitSeqLex_bestC (big : α) (R : List (Cand α)) (hd : DistinctC big R) : BestC big R (fitSeqLex big R) := by
+  induction R with
+  | nil => exact Or.inl ⟨rfl, fun c hc => by simp at hc⟩
+  | cons x R ih =>
+    rw [fitSeqLex_cons]
+    have hR : DistinctC big R := fun a ha b hb => hd a (List.mem_cons_of_mem _ ha) b (List.mem_cons_of_mem _ hb)
+    have h1 : BestC big [x] (normC big x) := by
+      unfold normC
+      by_cases hu : Usable big x
+      · rw [if_pos hu]
+        exact Or.inr ⟨by simp, hu, fun c hc _ => Or.inl (by simpa using hc)⟩
+      · rw [if_neg hu]
+        exact Or.inl ⟨rfl, fun c hc => by rw [List.mem_singleton.mp hc]; exact hu⟩
+    exact sel_bestC big [x] R (normC big x) (fitSeqLex big R) h1 (ih hR) hd
+
+theorem featC_inj_nodup (feats : List (FeatC α)) (hf : (feats.map Prod.fst).Nodup) (f g : FeatC α)
+    (hff : f ∈ feats) (hgf : g ∈ feats) (h : f.1 = g.1) : f = g := by
+  induction feats with
+  | nil => simp at hff
+  | cons x xs ih =>
+    rw [List.map_cons, List.nodup_cons] at hf
+    obtain ⟨hx, hxs⟩ := hf
+    rcases List.mem_cons.mp hff with e1 | hff' <;> rcases List.mem_cons.mp hgf with e2 | hgf'
+    · rw [e1, e2]
+    · exact absurd (List.mem_map.mpr ⟨g, hgf', by rw [← h, e1]⟩) hx
+    · exact absurd (List.mem_map.mpr ⟨f, hff', by rw [h, e2]⟩) hx
+    · exact ih hxs hff' hgf'
+
+/-- **Table fits: the selected candidate does not depend on the assignment of features to workers NOR on the order in which a
+    worker sees them** — see `table_fit_assignment_independent` in Props/C10.lean. -/
+theorem fitAssignedLex_any (big : α) (feats : List (FeatC α)) (workers : List (List (FeatC α)))
+    (hidx : ∀ p ∈ feats, ∀ c ∈ p.2, c.feature = p.1) (hnd : (feats.map Prod.fst).Nodup)
+    (hperm : workers.flatten.Perm feats) :
+    BestC big (repsC big feats) (fitAssignedLex big (workers.map streamC)) := by
+  have hsub : ∀ w ∈ workers, ∀ p ∈ w, p ∈ feats := fun w hw p hp =>
+    hperm.subset (List.mem_flatten.mpr ⟨w, hw, hp⟩)
+  have hmem : ∀ a, a ∈ (workers.map (repsC big)).flatten ↔ a ∈ repsC big feats := by
+    intro a
+    constructor
+    · intro h
+      obtain ⟨l, hl, ha⟩ := List.mem_flatten.mp h
+      obtain ⟨w, hw, rfl⟩ := List.mem_map.mp hl
+      obtain ⟨p, hp, rfl⟩ := List.mem_map.mp ha
+      exact List.mem_map.mpr ⟨p, hsub w hw p hp, rfl⟩
+    · intro h
+      obtain ⟨p, hp, rfl⟩ := List.mem_map.mp h
+      obtain ⟨w, hw, hpw⟩ := List.mem_flatten.mp (hperm.symm.subset hp)
+      exact List.mem_flatten.mpr ⟨repsC big w, List.mem_map.mpr ⟨w, hw, rfl⟩, List.mem_map.mpr ⟨p, hpw, rfl⟩⟩
+  have hd : DistinctC big (workers.map (repsC big)).flatten := by
+    intro a ha b hb hua hub hab
+    obtain ⟨p, hp, rfl⟩ := List.mem_map.mp ((hmem a).mp ha)
+    obtain ⟨q, hq, rfl⟩ := List.mem_map.mp ((hmem b).mp hb)
+    have hpq : p.1 = q.1 := by
+      rw [← hidx p hp _ (rep_usable_mem big p hua), ← hidx q hq _ (rep_usable_mem big q hub)]
+      exact hab
+    rw [featC_inj_nodup feats hnd p q hp hq hpq]
+  have hcaches : (workers.map streamC).map (fitSeqLex big) = (workers.map (repsC big)).map (fitSeqLex big) := by
+    simp only [List.map_map]
+    apply List.map_congr_left
+    intro w hw
+    exact fitSeqLex_streamC big w (fun p hp => hidx p (hsub w hw p hp))
+  have hb : ∀ v ∈ workers.map (repsC big), BestC big v (fitSeqLex big v) := by
+    intro v hv
+    exact fitSeqLex_bestC big v (fun a ha b hb' =>
+      hd a (List.mem_flatten.mpr ⟨v, hv, ha⟩) b (List.mem_flatten.mpr ⟨v, hv, hb'⟩))
+  apply bestC_congr big _ _ hmem
+  unfold fitAssignedLex
+  rw [hcaches]
+  cases hws : workers.map (repsC big) with
+  | nil => exact Or.inl ⟨rfl, fun c hc => by simp at hc⟩
+  | cons v vs =>
+    rw [hws] at hd hb
+    simp only [List.map_cons, List.flatten_cons]
+    rw [List.flatten_cons] at hd
+    exact minReduce_bestC big (fitSeqLex big) vs v (fitSeqLex big v) (hb v (by simp))
+      (fun u hu => hb u (List.mem_cons_of_mem _ hu)) hd
+
+/-- one table cache that sees all features in the given order -/
+theorem fitSeqLex_any (big : α) (feats : List (FeatC α)) (hidx : ∀ p ∈ feats, ∀ c ∈ p.2, c.feature = p.1)
+    (hnd : (feats.map Prod.fst).Nodup) : BestC big (repsC big feats) (fitSeqLex big (streamC feats)) := by
+  have := fitAssignedLex_any big feats [feats] hidx hnd (by simp)
+  simpa [fitAssignedLex, minReduce] using this
 
 end NanoVerif.WLearner
